@@ -10,7 +10,7 @@ from ..runner import CaseResult, case_key, explore, shrink
 
 ID = "C15"
 LEVEL = "exploration"
-RULE = ("Molecules: every closed-shell corpus molecule and every closed-shell periodic-table species (enumerated), "
+RULE = ("Molecules: every closed-shell corpus molecule and every closed-shell periodic-table species and, for every element, its smallest closed-shell chloride / methyl / hydroxide (enumerated), "
         "Hypothesis-edited molecules (ions, isotopes, hypervalent P/S/halogen, explicit H), each written with a drawn "
         "atom order, optional kekule / all-bonds-explicit / all-H-explicit form and drawn atom-map numbers (1-3 digits, "
         "optionally zero-padded) on a drawn subset of atoms; mixtures and reaction strings of them (1-4 molecules, one case in eight 8-40 molecules; mapped corpus reactions joined 6 and 25 at a time, i.e. strings with hundreds to thousands of map numbers); stereo centres and "
@@ -198,7 +198,8 @@ def run_shard(spec, seed, tier, shard):
     elif k == "hyp-pipe":
         explore(shard, _pipeline_strategy(), lambda c: check_pipeline_case(c, spec), spec["examples"], seed)
     elif k in ("corpus", "periodic"):
-        mols = gen.load_molecules(True) if k == "corpus" else gen.periodic_closed_shell(False) + tuple(gen.HYPERVALENT_H)
+        mols = gen.load_molecules(True) if k == "corpus" else (gen.periodic_closed_shell(False) + gen.periodic_covalent()
+                                                               + tuple(gen.HYPERVALENT_H))
         i = 0
         for j, mol in enumerate(mols):
             if k == "corpus" and j % spec["of"] != spec["part"]:
